@@ -32,7 +32,7 @@ Keep(pm, v) == ~(v.kind = "not-delivered" /\ v.detail \subseteq pm.lapsed)
 PStep(pm, e) ==
   CASE e.ev = "UPanic" ->
          <<[pm EXCEPT !.up = @ \cup {e.gate},
-                      !.lapsed = IF e.gate = "proc.OnEnd" THEN @ \cup {q \in 1..pm.m.cfg.nprocs : q > e.p} ELSE @], {}>>
+                      !.lapsed = IF e.gate = "proc.OnEnd" THEN @ \cup {q \in 1..99 : q > e.p} ELSE @], {}>>
     [] e.ev = "Unwind" ->
          LET m == pm.m
              r == Sp(m, e.span)
